@@ -3,6 +3,7 @@ package main
 import (
 	"encoding/json"
 	"fmt"
+	"strings"
 
 	stackage "github.com/JesseCoretta/go-stackage"
 )
@@ -140,6 +141,8 @@ func c07Trees(c *Ctx) []node {
 		nested = append(nested, genStacks(1, 1, 3, atoms[:2], []string{"PA", "CA", "AS"}, kinds)...)
 		nested = append(nested, genStacks(1, 1, 2, []node{{T: "leaf"}, {T: "CCL"}}, []string{"CCS", "S"}, kinds)...) // Condition aliases
 	}
+	// pointers to interface variables (leaves) and to Stack variables (descendable, and re-pointable)
+	nested = append(nested, genStacks(1, 1, 1, atoms[:1], []string{"PI", "CPI", "PS", "CPS"}, kinds)...)
 	elems := append(append([]node{}, atoms...), nested...)
 	elems = append(elems, node{T: "zalias"}, node{T: "nilPA"}) // hollow values of the alias types, as siblings
 	var roots []node
@@ -275,7 +278,10 @@ func init() {
 				return
 			}
 			for _, on := range optNames {
-				s := trees[i].buildStack("r", c07Opts(on))
+				var ptrs []*stackage.Stack
+				opts := c07Opts(on)
+				opts.ptrs = &ptrs
+				s := trees[i].buildStack("r", opts)
 				before := dumpKey(s)
 				for _, p := range paths {
 					c07Check(c, s, c07Case{trees[i], on, p}, i, true)
@@ -284,6 +290,16 @@ func init() {
 					c.Violation("traverse-mutates", fmt.Sprintf("Traverse changed the tree %s", trees[i]), c07Case{trees[i], on, nil}, 0)
 				}
 				c.States.Add(1)
+				if len(ptrs) > 0 && on == "default" {
+					// the pointer variables now point at other Stacks (no setter was called): every path
+					// again, against the descent through what is there now
+					for k, p := range ptrs {
+						*p = stackage.And().Push(fmt.Sprintf("repointed%d-0", k), stackage.Or().Push(fmt.Sprintf("repointed%d-1", k)))
+					}
+					for _, p := range paths {
+						c07Check(c, s, c07Case{trees[i], on + " (pointer variables re-pointed)", p}, i, true)
+					}
+				}
 			}
 		})
 		chains, chainPaths := c07Chains(c)
@@ -307,7 +323,18 @@ func init() {
 		var cs c07Case
 		json.Unmarshal(raw, &cs)
 		c07Prelude()
-		s := cs.Tree.buildStack("r", c07Opts(cs.Opts))
+		const repointed = " (pointer variables re-pointed)"
+		var ptrs []*stackage.Stack
+		opts := c07Opts(strings.TrimSuffix(cs.Opts, repointed))
+		opts.ptrs = &ptrs
+		s := cs.Tree.buildStack("r", opts)
+		if strings.HasSuffix(cs.Opts, repointed) {
+			s.Traverse(cs.Path...) // the first pass looked at the tree before the variables changed
+			for k, p := range ptrs {
+				*p = stackage.And().Push(fmt.Sprintf("repointed%d-0", k), stackage.Or().Push(fmt.Sprintf("repointed%d-1", k)))
+			}
+		}
+		_ = opts
 		c07Check(c, s, cs, 0, false)
 	}})
 }
